@@ -65,9 +65,9 @@ def datetime_subminute_offset(d):
     """a datetime whose utcoffset is not a whole number of minutes is dumped as +HH:MM:SS[.ffffff], which the
     timestamp regexp of the constructor does not accept (AttributeError on None.groupdict(), or read back as str)."""
     from tools.values import decode
-    v = d.get('value')
-    if not v: return False
-    try: o = decode(v)
+    encs = ([d['value']] if d.get('value') else []) + list(d.get('docs') or [])
+    if not encs: return False
+    try: o = [decode(v) for v in encs]
     except Exception: return False
     def has(o, seen):
         if isinstance(o, datetime.datetime):
@@ -125,9 +125,10 @@ def yaml_directive_huge_number(d):
 def _strings_of_case(d):
     """all scalar strings of a value case (encoded graph) or an event case (emitter line)"""
     out = []
-    if d.get('value'):
+    encs = ([d['value']] if d.get('value') else []) + list(d.get('docs') or [])
+    for enc in encs:
         from tools.values import decode
-        try: o = decode(d['value'])
+        try: o = decode(enc)
         except Exception: o = None
         seen = set()
         def walk(o):
@@ -160,7 +161,7 @@ def nel_unquoted_under_allow_unicode(d):
     """a str containing U+0085 dumped/emitted with allow_unicode=True: analyze_scalar counts NEL as a printable unicode
     character, so plain/single-quoted/literal/folded styles stay allowed; the scanner then reads the raw NEL as a line break
     (-> '\\n' or a folded space)."""
-    if d.get('kind') not in ('roundtrip_differs', 'emit_parse_differs', 'dump_unreadable', 'emit_unparsable', 'not_fixed_point', 'count_differs'): return False
+    if d.get('kind') not in ('roundtrip_differs', 'emit_parse_differs', 'dump_unreadable', 'emit_unparsable', 'not_fixed_point', 'count_differs', 'marker', 'line_break', 'depends_on_followers', 'indent'): return False
     return bool(_opt(d, 'allow_unicode')) and any('\x85' in s for s in _strings_of_case(d))
 
 def dq_fold_after_escaped_space(d):
@@ -216,6 +217,12 @@ def empty_plain_root_with_tag(d):
     """a document whose root is a scalar with empty text, a tag and implicit[0] set (the tag may be elided in plain style):
     the emitter neither forces '---' (check_empty_document only looks at untagged scalars) nor writes anything for the empty
     plain scalar, so the document text is empty / just '...'."""
+    if d.get('kind') in ('count_differs', 'dump_unreadable', 'roundtrip_differs') and not d.get('events') and d.get('text') is not None and d.get('docs') is None and d.get('value') is None:
+        # node level (serialize_all of composed graphs): some document root is an empty scalar whose tag the resolver re-derives
+        import yaml
+        try: roots = [n for n in yaml.compose_all(d['text'], Loader=yaml.SafeLoader)]
+        except Exception: return False
+        return any(isinstance(n, yaml.ScalarNode) and n.value == '' for n in roots if n is not None)
     if d.get('kind') not in ('emit_unparsable', 'emit_parse_differs', 'count_differs') or not d.get('events'): return False
     from tools.events import dec_case
     try: evs, o = dec_case(d['events'])
@@ -318,3 +325,25 @@ def merge_source_tag_ignored(d):
             if n is not None: walk(n, False)
     except Exception: return False
     return foreign_merge[0] and not foreign_elsewhere[0]
+
+def unsorted_set_iteration_order(d):
+    """sort_keys=False and the value contains a set with two or more elements: a set has no insertion order; represent_set
+    writes it in iteration order, the loaded set is rebuilt by inserting in that order and may iterate differently
+    (hash table history), so dump(load(dump(x))) can list the elements in another order."""
+    if d.get('kind') != 'not_fixed_point' or _opt(d, 'sort_keys') is not False: return False
+    from tools.values import decode
+    try: o = decode(d['value'])
+    except Exception: return False
+    seen = set(); found = [False]
+    def walk(o):
+        if isinstance(o, (list, set, dict)):
+            if id(o) in seen: return
+            seen.add(id(o))
+            if isinstance(o, set):
+                if len(o) >= 2: found[0] = True
+            elif isinstance(o, dict):
+                for k, v in o.items(): walk(v)
+            else:
+                for x in o: walk(x)
+    walk(o)
+    return found[0]
